@@ -39,7 +39,7 @@ ASSUMPTIONS = [
 ]
 CAP_S = {"quick": 2400, "thorough": 10800}
 LAYOUTS = ("flat", "jagged", "nested3", "optlist", "optrec", "regular", "regvar", "empty")
-EXTRAS = ((), ("charge",), ("charge", "tag"))
+EXTRAS = ((), ("charge",), ("charge", "tag"), ("label", "hits"))
 COORDS = {"x", "y", "rho", "phi", "z", "theta", "eta", "t", "tau"}
 
 
@@ -62,6 +62,13 @@ def shards(tier):
 
 def build(system, flavor, rows, layout, extras):
     names = L.field_names(system, flavor)
+    if "label" in extras:
+        # non-numeric and nested extra fields: only vector.zip accepts them (vector.Array type-checks every field)
+        cols = {n: ak.Array(B._nest([r[i] for r in rows], layout)) for i, n in enumerate(names)}
+        cols["label"] = ak.Array(B._nest([f"p{i}" for i in range(len(rows))], layout))
+        cols["hits"] = ak.Array(B._nest([list(range(i % 3)) for i in range(len(rows))], layout))
+        depth = cols[names[0]].layout.purelist_depth
+        return vector.zip(cols, depth_limit=depth)
     recs = []
     for i, r in enumerate(rows):
         d = dict(zip(names, r))
@@ -172,6 +179,8 @@ def run_op(res: Result, op, dimA, dimB, tier, mode):
         for layout in LAYOUTS:
             for extras in EXTRAS:
                 if extras == ("charge", "tag") and layout not in ("jagged", "optrec"):
+                    continue
+                if extras == ("label", "hits") and layout not in ("jagged", "nested3"):
                     continue
                 arr = build(sa, fa, rows_a, layout, extras)
                 seconds = [None]
